@@ -613,7 +613,9 @@ def resolve_profile_ties(profile: PreferenceProfile) -> PreferenceProfile:
     new_ballots = tuple(
         [b for ballot in profile.ballots for b in expand_tied_ballot(ballot)]
     )
-    return PreferenceProfile(ballots=new_ballots).condense_ballots()
+    return PreferenceProfile(
+        ballots=new_ballots, candidates=profile.candidates
+    ).condense_ballots()
 
 
 def score_profile_from_ballot_scores(
